@@ -200,6 +200,10 @@ QuatVecCase(A)       == [a |-> "QuatVec", cls |-> QuatBranch(A), arg |-> [a |-> 
 HQuatCase(x, y)      == [a |-> "HQuat", cls |-> IF x[1] % 2 = 0 THEN "lipschitz" ELSE "half-integer", arg |-> [a |-> x, b |-> y],
                          exp |-> [mul2 |-> HMul(x, y), conj2 |-> HConj(x), rcp2 |-> HConj(x), neg2 |-> VNeg(x), m |-> QMat(x),
                                   sum2 |-> VAdd(x, y), diff2 |-> VSub(x, y), dot4 |-> Dot(x, y)]]
+\* rotations with rational matrices num / den: matrix -> quaternion -> matrix, unit quaternion -> matrix, normalize
+\* (class = branch / whether every component of the quaternion is non-zero, i.e. every term of the branch is exercised)
+QuatRatCase(h) == [a |-> "QuatRat", cls |-> QuatBranch(QMat4(h)) \o (IF \A i \in 1..4 : h[i] # 0 THEN "/all-terms" ELSE ""),
+                   arg |-> [h |-> h, num |-> QMat4(h), den |-> HSq(h)]]
 YprRange == IF Level = 0 THEN -2..2 ELSE -4..4
 QuatYPRCase(y, p, r) == [a |-> "QuatYPR", cls |-> IF (p - 1) % 2 = 0 THEN "pitch-quarter" ELSE "pitch-half", arg |-> [y |-> y, p |-> p, r |-> r],
                          exp |-> [m |-> YPR(y, p, r), norm2 |-> 1]]
@@ -210,10 +214,11 @@ QuatCases ==
       rp == SetToSeq(Rot \X Rot)
       hp == SetToSeq(HUnits \X HUnits)
       yp == SetToSeq(YprRange \X YprRange \X YprRange)
+      iq == SetToSeq(IntQuats(-2..2))
   IN [k \in DOMAIN ts |-> QuatAACase(ts[k][1], ts[k][2])] \o [k \in DOMAIN rs |-> QuatFromMatCase(rs[k])]
      \o [k \in DOMAIN ts |-> QuatFromRotCase(ts[k][1], ts[k][2])] \o [k \in DOMAIN rp |-> QuatPairCase(rp[k][1], rp[k][2])]
      \o [k \in DOMAIN rs |-> QuatVecCase(rs[k])] \o [k \in DOMAIN hp |-> HQuatCase(hp[k][1], hp[k][2])]
-     \o [k \in DOMAIN yp |-> QuatYPRCase(yp[k][1], yp[k][2], yp[k][3])]
+     \o [k \in DOMAIN yp |-> QuatYPRCase(yp[k][1], yp[k][2], yp[k][3])] \o [k \in DOMAIN iq |-> QuatRatCase(iq[k])]
 
 \* --------------------------------------------------------------------------
 \* group "slerp": slerp(t, qa, qb) for all pairs of group elements, t = 0, 1/2, 1 (t2 = 2 t); qb negated for "neg"
@@ -233,7 +238,7 @@ SlerpCases ==
   IN [k \in DOMAIN sp |-> SlerpCase(sp[k][1], sp[k][2], sp[k][3], sp[k][4])]
 
 \* "val": the case has results that LinAlgebraValidate decides (rational or law-defined)
-NeedsValidation(c) == CASE c.a \in {"Inverse2", "Inverse3", "AffInv", "Orthogonal2", "Frame", "FrameUp", "Lookat"} -> TRUE
+NeedsValidation(c) == CASE c.a \in {"Inverse2", "Inverse3", "AffInv", "Orthogonal2", "Frame", "FrameUp", "Lookat", "QuatRat"} -> TRUE
                         [] c.a \in {"Xfm3", "AffXfm"} -> c.arg.inv
                         [] c.a = "Aff2Pair" -> Det(c.arg.a.l) # 0
                         [] c.a = "Slerp" -> c.arg.t2 = 1
